@@ -1,7 +1,7 @@
 LIBS = ["libvpsc", "libcola", "libavoid", "libtopology"]
 HARNESS = "harness/c13.cpp"
 DRIVER_MODE = "c13"
-LEAN_MODULES = ["AdaptaVerif.Props.C13"]
+LEAN_MODULES = ["AdaptaVerif.Props.C13", "AdaptaVerif.Props.C13Tie"]
 LEVEL = "translation_validation"
 LEVEL_TEXT = ("Every state the real library reaches after TopologyConstraints::solve(), applyResizes() and each "
               "ColaTopologyAddon step of ConstrainedFDLayout::run() is judged by Lean checkers that are proved to decide the "
@@ -16,7 +16,12 @@ LEVEL_NOTE = ("Only the move phase of solve() is modelled and proved. Which cons
               "Completeness of the set is exactly where the library fails (see class=endnode-visibility); that part is "
               "covered by validation of the real library's states only, on generated histories. Intermediate positions "
               "during a move are not observed (states are checked after each solve()); the side-signature check detects "
-              "tunnelling between two observed states for single-axis steps, not for resize steps (two axes at once).")
+              "tunnelling between two observed states: for single-axis steps by the exact crossing count on the scan line "
+              "through each node centre, for resize steps (x pass then y pass, the state in between is not observed) by the "
+              "parity of that count on both axes, corrected for path end points that pass over the ray (computed from the "
+              "node rectangles). That parity is invariant under legal motion by a continuity argument that is stated, not "
+              "proved in Lean (only its algebraic core, crossesLine_iff_exactly_one_end_low, is); an even number of "
+              "tunnellings of one node during one resize is not seen.")
 TECHNIQUE = ("Lean 4 theorems about the TriConstraint model + proven-exact state checkers (Rat) run by a compiled driver on "
              "the states dumped by an in-process harness (ASan+UBSan, asserts on, every scene in a forked child)")
 RULE = ("tri-*: 42 exhaustive chunks (7 p x 3 g x 2 leftOf x 4^6 positions) + random dyadic and arbitrary-double inputs shaped to "
@@ -25,7 +30,10 @@ RULE = ("tri-*: 42 exhaustive chunks (7 p x 3 g x 2 leftOf x 4^6 positions) + ra
         "routes, then alternating x/y TopologyConstraints phases with random desired positions (all move / one node dragged "
         "with weight 10000 / scramble / contract-expand), solve() repeated until it returns false, optional applyResizes, and "
         "ConstrainedFDLayout::run() with a ColaTopologyAddon subclass that dumps the state after every moveTo / "
-        "applyForcesAndConstraints / handleResizes; non-trivial = some path gained or lost a bend during the history")
+        "applyForcesAndConstraints / handleResizes; scene-resize-corners: an edge routed by hand round one or two corners "
+        "of a node R (all 8 symmetries, so every corner and both axes), 1-6 small bystander nodes placed next to the segments "
+        "incident to those bends, then 1-3 applyResizes() calls that move R's four sides separately and in combination "
+        "(side mask 1..15, grow 2..35 or shrink 1..8); non-trivial = some path gained or lost a bend during the history")
 TRUSTED_BASE = ["Lean 4.33 kernel", "axioms: propext, Classical.choice, Quot.sound",
                 "Lean compiler for the driver", "harness/c13.cpp state dump (EdgePoint::posX/posY, Rectangle getters) + hex-float import",
                 "IEEE exactness of +,-,* on the dyadic tie inputs",
@@ -35,11 +43,19 @@ ASSUMPTIONS = ["initial scenes satisfy the property's preconditions (checked by 
                "an abort of the library (COLA_ASSERT / sanitizer) inside a scene is a failing input even if all dumped states pass"]
 EXPLANATION = ("SPECFAIL messages start with class=<fingerprint>: endnode-visibility (segment attached to an end node's centre "
                "cuts a node that shares a scan line with that end node), seg-through-node, bad-bend, node-overlap, ends-changed, "
-               "side-changed, unsafe-alpha (tie), crash-<assert kind>.")
-# WIP stays until the lead has dealt with the two genuine libtopology defects this check reports on the clean
-# tree (fix: commit for class=endnode-visibility and/or known_findings entries, see the C13 report): with the
-# msg_re patterns ^class=(endnode-visibility|crash-(resize-)?assert-segment-rect-intersection) and
-# ^class=(bad-bend-after-parallel-segment|crash-(resize-)?assert-convex-bend) registered, seeds 1..5 are quiet in both tiers.
+               "side-changed (single-axis step), side-changed-resize (two-pass step), unsafe-alpha (tie), crash-<assert kind>.")
+# The clean tree still produces the registered findings C13-endnode-visibility, C13-parallel-segment-bend and
+# C13-samecorner-assert (known_findings.json, matched by the class= prefix of the message); everything else is a VIOLATION.
+
+
+def regenerate(ROOT, REPO):
+    """TriConstraint::slack / slackAtFinal / slackAtInitial / maxSafeAlpha are regenerated from
+    topology_constraints.cpp by cpp2lean on every run and proved equal to Model/Tri.lean (Props/C13Tie.lean)"""
+    import sys
+    from pathlib import Path
+    sys.path.insert(0, str(Path(ROOT) / "tools" / "cpp2lean"))
+    import jobs
+    return jobs.regenerate(["tri"], Path(ROOT), Path(REPO))
 
 
 def plan(tier, seed, searching):
